@@ -651,9 +651,9 @@ def gen_hfp(rng, idx):
             rng.shuffle(inds)
     ind_specs = []
     for n in inds:
-        vs = rng.choice(['std', 'std', 'sparse', 'single', 'offset'])
+        vs = rng.choice(['std', 'std', 'sparse', 'single', 'offset', 'one-gap', 'one-gap-b', 'one-gap-c'])
         values = {'std': IND_RANGES[n], 'sparse': [0, 2, 5], 'single': [rng.choice([0, 1, 3])],
-                  'offset': [1, 2, 3]}[vs]
+                  'offset': [1, 2, 3], 'one-gap': [0, 1, 3], 'one-gap-b': [0, 2], 'one-gap-c': [1, 2, 4, 5]}[vs]
         ind_specs.append((n, sorted(values), rng.choice(values)))
     hfi = rng.choice([[], [1], [2], [1, 2], [2, 1]])
     agi = rng.choice([[], [1], [2], [1, 2], [2, 1]])
